@@ -719,4 +719,146 @@ theorem connUpdate_core (s : St) (cond : Nat) (hp : Bool) :
   · refine ⟨rfl, rfl, fun h h2 => h (Nat.or_eq_zero_iff.mp h2).1⟩
   · exact ⟨rfl, rfl, id⟩
 
+/-! ### the accepted, written and delivered streams only grow -/
+
+structure Grow (s s' : St) : Prop where
+  acc : s.accepted.length ≤ s'.accepted.length
+  wr : s.written.length ≤ s'.written.length
+  del : s.delivered.length ≤ s'.delivered.length
+
+theorem Grow.refl (s : St) : Grow s s := ⟨Nat.le_refl _, Nat.le_refl _, Nat.le_refl _⟩
+
+theorem Grow.trans {a b c : St} (h1 : Grow a b) (h2 : Grow b c) : Grow a c :=
+  ⟨Nat.le_trans h1.acc h2.acc, Nat.le_trans h1.wr h2.wr, Nat.le_trans h1.del h2.del⟩
+
+theorem grow_of_frame {s s' : St} (f : Frame s s') : Grow s s' :=
+  ⟨by rw [f.accepted]; exact Nat.le_refl _, by rw [f.written]; exact Nat.le_refl _, by rw [f.delivered]; exact Nat.le_refl _⟩
+
+theorem tfh_grow (s : St) (a : HAns) : Grow s (tryFinishHandshake s a) := by
+  have d := tfh_data s a
+  exact ⟨by rw [d.2.2.2.1]; exact Nat.le_refl _, by rw [d.1]; exact Nat.le_refl _, by rw [d.2.1]; exact Nat.le_refl _⟩
+
+theorem flush_grow (fuel : Nat) : ∀ (s : St) (ws : List WAns), Grow s (flushPending fuel s ws).1 := by
+  induction fuel with
+  | zero => intro s ws; exact Grow.refl s
+  | succ f ih =>
+    intro s ws
+    unfold flushPending
+    split
+    · exact Grow.refl s
+    · cases hw : nextW ws with
+      | mk w rest =>
+        cases w with
+        | n k =>
+          simp only
+          have hstep : Grow s (flushStep s (max 1 (min k s.pend.length))) :=
+            ⟨Nat.le_refl _, by simp only [flushStep, List.length_append]; omega, Nat.le_refl _⟩
+          exact hstep.trans (ih _ rest)
+        | zero => simp only; exact ⟨Nat.le_refl _, Nat.le_refl _, Nat.le_refl _⟩
+        | ev e =>
+          simp only
+          have f := (frame_reset s).trans (frame_pse { s with sslCondition := 0, sslWants := 0 } SENDABLE e)
+          split
+          · exact grow_of_frame f
+          · exact grow_of_frame f
+          · exact grow_of_frame (f.trans (frame_pendWants _ _))
+
+theorem readStep_grow (sf : St) (cap : Nat) (r : RAns) : Grow sf (readStep sf cap r).1 := by
+  unfold readStep
+  cases r with
+  | data bs =>
+    simp only
+    split
+    · exact grow_of_frame (frame_reset sf)
+    · exact ⟨Nat.le_refl _, Nat.le_refl _, by simp only [List.length_append]; omega⟩
+  | ev e =>
+    simp only
+    have f := (frame_reset sf).trans (frame_pse { sf with sslCondition := 0, sslWants := 0 } RECEIVABLE e)
+    split <;> exact grow_of_frame f
+
+theorem send_grow (s : St) (buf : Bytes) (h : HAns) (ws : List WAns) : Grow s (send s buf h ws).1 := by
+  have g1 := tfh_grow s h
+  unfold send
+  generalize tryFinishHandshake s h = s1 at g1
+  simp only
+  split
+  · exact g1
+  · exact g1
+  · exact g1
+  · split
+    · exact g1
+    · have g2 := flush_grow (s1.pend.length + 1) s1 ws
+      cases hf : flushPending (s1.pend.length + 1) s1 ws with
+      | mk sf rest3 =>
+        obtain ⟨fr, rest, nf⟩ := rest3
+        rw [hf] at g2
+        have g := g1.trans g2
+        simp only
+        cases fr with
+        | some r => exact g
+        | none =>
+          simp only
+          cases hw : nextW rest with
+          | mk w _ =>
+            cases w with
+            | n k =>
+              exact g.trans ⟨by simp only [List.length_append]; omega, by simp only [List.length_append]; omega, Nat.le_refl _⟩
+            | zero => exact g.trans ⟨Nat.le_refl _, Nat.le_refl _, Nat.le_refl _⟩
+            | ev ev =>
+              simp only
+              have f := (frame_reset sf).trans (frame_pse { sf with sslCondition := 0, sslWants := 0 } SENDABLE ev)
+              have gf := grow_of_frame f
+              split
+              · exact g.trans gf
+              · exact g.trans gf
+              · exact g.trans (gf.trans ⟨by simp only [List.length_append]; omega, Nat.le_refl _, Nat.le_refl _⟩)
+
+theorem receive_grow (s : St) (cap : Nat) (h : HAns) (ws : List WAns) (r : RAns) : Grow s (receive s cap h ws r).1 := by
+  have g1 := tfh_grow s h
+  unfold receive
+  generalize tryFinishHandshake s h = s1 at g1
+  simp only
+  split
+  · exact g1
+  · exact g1
+  · exact g1
+  · have g2 := flush_grow (s1.pend.length + 1) s1 ws
+    cases hf : flushPending (s1.pend.length + 1) s1 ws with
+    | mk sf rest3 =>
+      obtain ⟨fr, rest, nf⟩ := rest3
+      rw [hf] at g2
+      simp only
+      split
+      · exact g1.trans g2
+      · exact g1.trans g2
+      · exact (g1.trans g2).trans (readStep_grow sf cap r)
+
+theorem finish_grow (s : St) (h : HAns) (ws : List WAns) (l : Option Nat) : Grow s (finish s h ws l).1 := by
+  have g1 := tfh_grow s h
+  unfold finish
+  generalize tryFinishHandshake s h = s1 at g1
+  simp only
+  split
+  · exact g1
+  · have g2 := flush_grow (s1.pend.length + 1) s1 ws
+    cases hf : flushPending (s1.pend.length + 1) s1 ws with
+    | mk sf rest3 =>
+      obtain ⟨fr, rest, nf⟩ := rest3
+      rw [hf] at g2
+      simp only
+      cases fr <;> exact g1.trans g2
+  · exact g1
+  · exact g1
+
+theorem step_grows (s : St) (op : Op) :
+    s.accepted.length ≤ (step s op).accepted.length ∧ s.written.length ≤ (step s op).written.length ∧
+    s.delivered.length ≤ (step s op).delivered.length := by
+  have g : Grow s (step s op) := by
+    cases op with
+    | hs h => exact tfh_grow s h
+    | send b h w => exact send_grow s b h w
+    | recv c h w r => exact receive_grow s c h w r
+    | fin h w l => exact finish_grow s h w l
+  exact ⟨g.acc, g.wr, g.del⟩
+
 end XcmModel.Btls
